@@ -576,7 +576,7 @@ PROPS["C10"] = _dbg(
     "equals an undebugged run of the image advanced by exactly the number of executed instructions.")
 PROPS["C11"] = _dbg(
     ["Lace.C11.bp_sorted_nodup", "Lace.C11.bp_pause_before_exec", "Lace.C11.exec_rearms",
-     "Lace.C11.no_bp_no_pause", "Lace.C11.runCommand_bps"],
+     "Lace.C11.no_bp_no_pause", "Lace.C11.runCommand_bps", "Lace.C11.armed_iteration_reads"],
     "programs with loops incl. a one-instruction self-loop, .break before the first / between any two / after the last "
     "statement, doubled, together with labels × scripts of break add / remove / list at absolute, label and PC-offset "
     "locations interleaved with every resuming command; pause points are observable through the command/execution "
